@@ -119,6 +119,21 @@ theorem adjacency_ends_connected (v : Variant) (ops : List Op)
   subst he
   exact isUp_stays l.dpid2 pre l order h2 post (fun o ho ord c => hnd o ho ⟨ord, .inr c⟩)
 
+/-- non-vacuity of `hwf`: in this history the only PacketIn comes from switch 2, which is connected -/
+example : ∀ pre l ord post, [Op.up 1 [1], .up 2 [1], .probe ⟨1, 1, 2, 1⟩ [1, 2]] = pre ++ Op.probe l ord :: post →
+    isUp pre l.dpid2 = true := by
+  intro pre l ord post h
+  rcases pre with _ | ⟨a, _ | ⟨b, _ | ⟨c, r⟩⟩⟩
+  · simp at h
+  · simp at h
+  · simp only [List.cons_append, List.nil_append, List.cons.injEq] at h
+    obtain ⟨rfl, rfl, h3, _⟩ := h
+    cases h3
+    decide
+  · simp only [List.cons_append, List.cons.injEq] at h
+    obtain ⟨_, _, _, h4⟩ := h
+    cases r <;> simp at h4
+
 /-- non-vacuity: link up, refreshed, expired, up again, switch down -/
 def l12 : Link := ⟨1, 1, 2, 1⟩
 def hist1 : List Op :=
